@@ -266,8 +266,10 @@ def datapath_rule(ctx: Ctx, rid: str, fields_only: dict | None = None, section: 
                 detail = f"it happens when `{_clip(fl.show_cond(same[0].cond))}`"
             r.check(ok, f"{ab}|{what}", f.loc(where),
                     f"{ab}: {what}: expected `{src}` exactly when `{_clip(cond.replace('GUARD', spec['guard']))}`; {detail}")
-        if only is None and section == "latch":
+        if (only is None or any(f"once:{n_}" in only for n_ in spec["once"])) and section == "latch":
             for name in spec["once"]:
+                if only is not None and f"once:{name}" not in only:
+                    continue
                 calls = [e for e in fl.effects if e.kind == "call" and isinstance(e.expr, ast.Call)
                          and isinstance(e.expr.func, ast.Attribute) and e.expr.func.attr == name]
                 ok = len(calls) == 1 and fl.canon_cond(calls[0].cond) == guard
